@@ -18,6 +18,7 @@ package operator
 import (
 	"context"
 	"fmt"
+	"hash/fnv"
 	"os"
 	"strconv"
 	"strings"
@@ -841,6 +842,9 @@ func defaultEtcdSnapshotBucket(cluster *kafscalev1alpha1.KafscaleCluster) string
 	return sanitizeBucketName(fmt.Sprintf("%s-%s-%s", defaultSnapshotBucketPrefix, namespace, name))
 }
 
+// maxBucketNameLength is the S3 limit for bucket names.
+const maxBucketNameLength = 63
+
 func sanitizeBucketName(raw string) string {
 	raw = strings.ToLower(strings.TrimSpace(raw))
 	if raw == "" {
@@ -867,6 +871,15 @@ func sanitizeBucketName(raw string) string {
 	out := strings.Trim(b.String(), "-")
 	if out == "" {
 		return defaultSnapshotBucketPrefix
+	}
+	if len(out) > maxBucketNameLength {
+		// S3 bucket names are limited to 63 characters. Keep a readable
+		// prefix and append a hash of the full name so that different long
+		// names still map to different buckets.
+		h := fnv.New32a()
+		_, _ = h.Write([]byte(raw))
+		suffix := fmt.Sprintf("-%08x", h.Sum32())
+		out = strings.Trim(out[:maxBucketNameLength-len(suffix)], "-") + suffix
 	}
 	return out
 }
